@@ -10,7 +10,7 @@ type Frag interface {
 	// then returning the expanded buffer.
 	Append(buf []byte, bracket, first bool) []byte
 
-	locate(pp Expr, data any, rest Expr, max int) (locs []Expr)
+	locate(pp Expr, data any, rest Expr, max int, root any) (locs []Expr)
 
 	// Walk the matching elements in tail of nodes and call cb on the matches
 	// or follow on to the matching if not the last fragment in an
